@@ -39,7 +39,7 @@ def generate(seed, tier):
     dcfg = P.gen_data_cfg(r, scfg, max_N=9 if not big else 12)
     N = dcfg["N"]
     pos, neg = P.gen_batching(r, N)
-    se = r.choice([1, 1, 1, 2, 3, 5])
+    se = r.choice([1, 1, 1, 2, 3, 5, 0, -2])  # epoch numbering may start anywhere
     span = r.choice([0, 1, 1, 2, 2, 3]) if not big else r.choice([0, 1, 2, 3, 4])
     epochs = se - 1 + span
     if r.random() < 0.05:
@@ -103,6 +103,8 @@ def generate(seed, tier):
             "continue": r.choice([None, None, None, {"span": r.randint(0, 2), "gap": r.choice([0, 0, 1]), "replace": r.choice([[], [], [r.randrange(0, n_wit)]])}]),
             # how the caller hands over its callbacks (a CallbackList is re-used, edited in place, by a continued run)
             "container": r.choice(["list", "list", "tuple", "iterator", "CallbackList", "CallbackList"]),
+            # what the witness hooks return (ignored by a correct dispatcher)
+            "returns": [r.choice([None, None, True, 1, ["x"], 0]) for _ in range(n_wit)],
             # an untrained, perfectly symmetric state (all parameters zero): rotated-basis outcomes of zero
             # amplitude make gradients non-finite; the event protocol must not care (k = 0 keeps sampling out of it)
             "zero_params": r.random() < 0.04,
@@ -152,6 +154,7 @@ def execute(plan):
                 scheduler=sched,
                 scheduler_args=sargs,
                 container=cfg.get("container", "list"),
+                returns=cfg.get("returns"),
             )
             aborted = False
             if info["raised"] is not None and type(info["raised"]).__name__ == "UserAbort":
@@ -187,7 +190,7 @@ def execute(plan):
                 se2 = max(tc["epochs"], tc["starting_epoch"] - 1) + 1 + cont["gap"]
                 tc2 = dict(tc, starting_epoch=se2, epochs=se2 - 1 + cont["span"])
                 info2 = run_fit(run, state, tc2, data_in, bases, n_wit=cfg["n_wit"], flavours=cfg.get("flavours"), scheduler=sched, scheduler_args=sargs,
-                                container=cfg.get("container", "list"), prior=info, replace=cont.get("replace", []))
+                                container=cfg.get("container", "list"), prior=info, replace=cont.get("replace", []), returns=cfg.get("returns"))
                 run.probes["continued_fit"] += 1
                 if info2["raised"] is not None:
                     run.lib_exception(info2["raised"], "continued fit")
